@@ -25,14 +25,20 @@ RULE = (
     "the inputs [None, token, None, 0]; then random trees to depth 4 (pipe arity 0-4, functions that return a term / None "
     "/ 0 / raise, fault rate 0-15%), 1-3 inputs from {None, tokens, 0, '', [], False}, random class configuration (attr.s / "
     "define / mutable / make_class, slots, frozen, kw_only, list-or-tuple form of a top-level pipe, hook on class or field, "
-    "Factory spelling of default_if_none, a second converted field before/after); non-trivial = depth>=2 or a Converter. "
+    "Factory spelling of default_if_none); in the class modes the class has 1-3 fields that SHARE the one converter object "
+    "(harness-only variation: or equal objects built separately) plus 0-2 fields with a converter of their own in between, "
+    "every sharing field is converted (each __init__ line / assignment must hand the converter its own field) and every "
+    "small tree is also run on a three-sharing-field class; non-trivial = depth>=2 or a Converter. "
     "tobool: every letter-case variant of the 12 documented words, bools, ints and int-subclass instances, "
     "float/complex/Decimal/Fraction equal to -1,0,1,2, a pool of 23 unrelated objects, 54 near-miss strings (whitespace, "
     "Unicode look-alikes, Kelvin sign, dotted I) and random one-edit neighbours of the words in random case. din: all "
     "well-formed (default?, is Factory?, takes_self?, factory?) x positional/keyword x explicit NOTHING/None. filter: all "
     "what-lists of length <=1 (thorough <=2) over 10 classes + 5 names + 6 Attribute objects (equal ones from another "
     "class, an inherited copy, same name with other settings) + 7 ignored objects, x 6 attributes x 11 values (bool vs int, "
-    "subclass instances, a class as value), then random lists of length 2-6. cmp: all 32 subsets of {eq,lt,le,gt,ge} with "
+    "subclass instances, a class as value) each on a filter of its own AND all 78 pairs asked of ONE include/exclude object in "
+    "two random orders, then random lists of length 1-6 (60% listing an Attribute) queried with a history of 2-10 "
+    "questions built from same-named fields of different classes (equal and non-equal Attributes) with values of one "
+    "exact type, the first question repeated at the end; each answer is judged on its own. cmp: all 32 subsets of {eq,lt,le,gt,ge} with "
     "the standard functions x require_same_type x {same type, subclass payload, other type, foreign object} x 3-5 value "
     "pairs, then random assignments of 10 relations (incl. constant, NotImplemented-returning and raising functions) to the "
     "supplied slots (thorough: every single-slot deviation). Every supplied callable is instrumented: cmp functions record "
@@ -53,7 +59,7 @@ ASSUMPTIONS = [
     "a __init__ that stores through object.__setattr__, _setattr or the instance dict is the same for this property; the class configuration is background variation the model is independent of",
 ]
 LEVEL_TEXT = (
-    "34 Lean theorems (Properties/C19.lean) about executable models of pipe/Converter/optional/default_if_none, to_bool, "
+    "35 Lean theorems (Properties/C19.lean) about executable models of pipe/Converter/optional/default_if_none, to_bool, "
     "include/exclude and cmp_using+total_ordering. Converters: the operational model (built objects, isinstance(Converter) "
     "dispatch, one/three-argument calls with arity errors, Converter.__call__'s lambda table, _fmt_converter_call's table, "
     "setters.convert) is proved equal, for every expression tree of any depth and width, every mode and every input "
@@ -66,7 +72,7 @@ LEVEL_TEXT = (
     "C19_to_bool_strings / C19_to_bool_case_variants / C19_to_bool_case_insensitive (all strings through ASCII lowering, "
     "all ints, bools; everything else ValueError) outside K10 (C19_K10_witness, C19_K10_narrow, C19_K10_shape); "
     "C19_default_if_none_args. Filters: C19_include_iff, C19_exclude_is_negation, C19_include_union for arbitrary "
-    "what-lists. cmp_using: C19_cmp_using_supplied, C19_cmp_using_notimpl (NotImplemented from all six methods, == False, "
+    "what-lists, C19_filter_history_independent (one filter object asked a sequence answers each question as a fresh one). cmp_using: C19_cmp_using_supplied, C19_cmp_using_notimpl (NotImplemented from all six methods, == False, "
     "!= True, orderings TypeError), C19_cmp_using_derived (all integers, every non-empty subset of ordering functions with "
     "eq: all methods and operators compute the order), C19_cmp_using_mismatch_never_calls (on a type mismatch no supplied "
     "function is called by any method or operator, derived and reflected ones included), C19_cmp_using_called_once, "
@@ -108,7 +114,7 @@ def nontrivial(case, model):
     if case["kind"] == "cmp":
         return any(case[s] is not None for s in M.SLOTS)
     if case["kind"] == "filter":
-        return len(case["what"]) > 0
+        return len(case["what"]) > 0 and len(case["queries"]) > 0
     return True
 
 
@@ -128,6 +134,14 @@ def shrink(case):
         yield from M.c_shrink(case)
     elif k == "filter":
         w, pw = case["what"], case["py"]["what"]
+        q, pq = case["queries"], case["py"]["queries"]
+        if len(q) > 2:
+            h = len(q) // 2
+            yield dict(case, queries=q[:h], py=dict(case["py"], queries=pq[:h]))
+            yield dict(case, queries=q[h:], py=dict(case["py"], queries=pq[h:]))
+        if len(q) > 1:
+            for i in range(len(q)):
+                yield dict(case, queries=q[:i] + q[i + 1:], py=dict(case["py"], queries=pq[:i] + pq[i + 1:]))
         for i in range(len(w)):
             yield dict(case, what=w[:i] + w[i + 1:], py=dict(case["py"], what=pw[:i] + pw[i + 1:]))
 
@@ -139,9 +153,12 @@ def neighbours(case, rng):
     elif k == "cmp":
         yield from M.c_neighbours(case, rng)
     elif k == "filter":
+        items = [(w, tuple(p)) for w, p in zip(case["what"], case["py"]["what"])]
         for a in M.ATTRS:
             for v in M.VALUES:
-                yield M.f_case([(w, tuple(p)) for w, p in zip(case["what"], case["py"]["what"])], a, v)
+                yield M.f_case(items, [(a, v)])
+        for _ in range(20):
+            yield M.f_case(items, M.rand_history(rng, list(M.ATTRS), list(M.VALUES)))
     elif k == "tobool":
         v = case["v"]
         if isinstance(v, dict) and "str" in v:
